@@ -86,6 +86,7 @@ def run(ctx):
     check_files(P, ctx, tables)
     check_local_ownership(P, ctx)
     check_record_teardown(P, ctx)
+    check_outparam_dangling(P, ctx)
 
 
 FD_SOURCES = {"socket", "accept", "accept4", "eventfd", "timerfd_create", "epoll_create1", "epoll_create", "open", "openat", "dup", "signalfd", "inotify_init1"}
@@ -1204,6 +1205,66 @@ def check_drain_loops(P, ctx, tables):
                     r.ok("%s: the loop ends only when %s says the collection is empty" % (f.qname, f.show(cond)[:50]), "loop condition vs. the remover's effect")
     if n < 1:
         raise Broken("C08.R11: no draining loop found on the close/cleanup path (ctl_destroy expected)")
+
+
+def check_outparam_dangling(P, ctx):
+    """R15: a function that releases what its out-parameter points to (`ut_free(*data)`) stores into the out-parameter
+    again before it returns.  The caller still holds the variable: its own clean-up (`out_free: ut_free(cert_data)`)
+    releases the stale pointer a second time - a double free under the context store's lock."""
+    from .. import seq as S
+    r = ctx.rule("C08.R15", "an out-parameter never leaves a function pointing at memory the function has released")
+    REL = ("ut_free", "free")
+    n = 0
+    for f in P.functions:
+        if not f.file.startswith(("libxcm/", "common/")):
+            continue
+        pp = {p["name"] for p in f.params if (p.get("t") or "").replace(" ", "").endswith("**")}
+        if not pp:
+            continue
+
+        def deref_param(fn, nid):
+            m = fn.nodes[fn._strip0(nid)]
+            if m["k"] == "un" and m["op"] == "*":
+                b = fn.nodes[fn._strip0(m["sub"])]
+                if b["k"] == "ref" and b.get("dk") == "param" and b["name"] in pp:
+                    return b["name"]
+            return None
+        sites = [c for c in f.calls() if (f.nodes[c].get("callee") or "") in REL and f.nodes[c]["args"] and deref_param(f, f.nodes[c]["args"][0])]
+        if not sites:
+            continue
+        n += 1
+        r.instance("%s (%d release(s) through an out-parameter)" % (f.qname, len(sites)))
+        bad = []
+
+        class Dangling(S.SeqRule):
+            max_depth = 0
+
+            def user0(s2, fn):
+                return frozenset()
+
+            def on_call(s2, fn, st, nid, callees, exts):
+                if nid in sites:
+                    return st.user | {deref_param(fn, fn.nodes[nid]["args"][0])}
+                return None
+
+            def on_store(s2, fn, st, nid, lhs, rhs, op):
+                p_ = deref_param(fn, lhs)
+                if p_ is not None and op == "=":
+                    return st.user - {p_}
+                return None
+
+            def on_exit(s2, fn, st, ret_nid, ret_cls, top):
+                if top and st.user and not bad:
+                    bad.append((ret_nid, sorted(st.user)[0]))
+        S.run(Dangling(P), f)
+        if bad:
+            ret, p_ = bad[0]
+            r.violation("%s:*%s:dangling" % (f.name, p_), "%s can return with *%s still pointing at memory it has released: the caller's own clean-up of that variable frees it a "
+                        "second time" % (f.name, p_), loc=f.loc(ret) if ret is not None else f.file)
+        else:
+            r.ok("%s: every release through an out-parameter is followed by a store into it" % f.qname, "path exploration")
+    if n < 1:
+        raise Broken("C08.R15: no release through an out-parameter found (load_file expected)")
 
 
 # out-parameter creators whose object lands in a field (&rec->f); success is the value 0 of the result
